@@ -148,3 +148,119 @@ Qed.
 Example writes_ok_example :
   writes_ok (map (fun m => (m, allowed_writes m)) tracked_methods) = true.
 Proof. vm_compute. reflexivity. Qed.
+
+(* ------------------------------------------------------------------ the ID chosen for a new group is never in use (C16 fix) *)
+Lemma name_taken_in : forall gs nm, name_taken gs nm = true <-> In nm (map gid gs).
+Proof.
+  intros gs nm. unfold name_taken. rewrite existsb_exists. split.
+  - intros [g [Hg Hh]]. unfold has_gid in Hh. apply String.eqb_eq in Hh. subst. now apply in_map.
+  - intro H. apply in_map_iff in H. destruct H as [g [<- Hg]]. exists g. split; auto. unfold has_gid. apply String.eqb_refl.
+Qed.
+
+Lemma fresh_index_taken : forall fuel gs n id,
+  name_taken gs (mkname (fresh_index fuel gs n id) id) = true ->
+  forall k, (k <= fuel)%nat -> name_taken gs (mkname (n + Z.of_nat k) id) = true.
+Proof.
+  induction fuel as [|f IH]; intros gs n id H k Hk; simpl in H.
+  - assert (k = O) by lia. subst. now rewrite Z.add_0_r.
+  - destruct (name_taken gs (mkname n id)) eqn:E.
+    + destruct k as [|k']; [now rewrite Z.add_0_r|].
+      replace (n + Z.of_nat (S k')) with ((n + 1) + Z.of_nat k') by lia. apply (IH gs (n + 1) id H). lia.
+    + congruence.
+Qed.
+
+(* the while loop of __unused_branch_group_id ends within len(groups) increments, with an ID no group carries *)
+Theorem fresh_name_not_taken : forall gs n id, ~ In (fresh_name gs n id) (map gid gs).
+Proof.
+  intros gs n id Hin. unfold fresh_name in Hin. apply name_taken_in in Hin.
+  pose proof (fresh_index_taken (List.length gs) gs n id Hin) as Hall.
+  set (cands := map (fun k => mkname (n + Z.of_nat k) id) (seq 0 (S (List.length gs)))).
+  assert (Hnd : NoDup cands).
+  { unfold cands. apply FinFun.Injective_map_NoDup; [|apply seq_NoDup].
+    intros a b Hab. apply mkname_inj in Hab. lia. }
+  assert (Hincl : incl cands (map gid gs)).
+  { intros x Hx. unfold cands in Hx. apply in_map_iff in Hx. destruct Hx as [k [<- Hk]]. apply in_seq in Hk.
+    apply name_taken_in. apply Hall. lia. }
+  pose proof (NoDup_incl_length Hnd Hincl) as Hlen. unfold cands in Hlen.
+  rewrite !map_length, seq_length in Hlen. lia.
+Qed.
+
+(* hence NO pre-existing group is touched, whatever its ID: the group list after the call is the old list followed by
+   new, section-tagged groups (before the optional reordering; optimise flag off) *)
+Lemma upd_first_skip_prefix : forall nm f gs0 tail, ~ In nm (map gid gs0) ->
+  upd_first_group nm f (gs0 ++ tail) = (gs0 ++ upd_first_group nm f tail)%list.
+Proof.
+  intros nm f gs0 tail H. induction gs0 as [|g r IH]; simpl; auto.
+  rewrite (has_gid_not_in nm (g :: r) H g (or_introl eq_refl)). f_equal. apply IH. intro Hin. apply H. simpl. now right.
+Qed.
+
+Definition tagged (g : group) : Prop := gnlx g = Some section_nlx.
+
+Definition tail_inv (gs0 : list group) (st : mstate) : Prop :=
+  exists tail, st_groups st = (gs0 ++ tail)%list /\ Forall tagged tail.
+
+Lemma upd_first_tagged : forall nm id tail, Forall tagged tail -> Forall tagged (upd_first_group nm (add_member_g id) tail).
+Proof.
+  intros nm id tail H. induction H as [|g r Hg Hr IH]; simpl; [constructor|].
+  destruct (has_gid nm g); constructor; auto. unfold tagged, add_member_g in *. destruct (memZ id (gmembers g)); auto.
+Qed.
+
+Lemma tail_inv_add_member : forall gs0 gname id st, ~ In gname (map gid gs0) -> tail_inv gs0 st -> tail_inv gs0 (add_member gname id st).
+Proof.
+  intros gs0 gname id st Hn [tail [Hg Ht]]. exists (upd_first_group gname (add_member_g id) tail). split.
+  - unfold add_member. cbn [st_groups]. rewrite Hg. now apply upd_first_skip_prefix.
+  - now apply upd_first_tagged.
+Qed.
+
+Lemma sect_tail_inv : forall gs0 fuel a r gname st st', ~ In gname (map gid gs0) -> tail_inv gs0 st ->
+  sect fuel a r gname st = Ok st' -> tail_inv gs0 st'.
+Proof.
+  intros gs0. induction fuel as [|k IH]; intros a r gname st st' Hn Hinv H; [discriminate|].
+  simpl in H. destruct (alookup a r) as [[|ch [|ch2 rest]]|] eqn:Ea.
+  - inversion H; subst. exact Hinv.
+  - eapply IH; [exact Hn| |exact H]. now apply tail_inv_add_member.
+  - assert (Hstart : tail_inv gs0 (add_member gname r st)) by now apply tail_inv_add_member.
+    revert H. generalize (add_member gname r st) Hstart. generalize (ch :: ch2 :: rest).
+    induction l as [|x xs IHl]; intros st1 Hst1 H; cbn [fold_left] in H.
+    + inversion H; subst. exact Hst1.
+    + destruct (sect_child (sect k a) (Ok st1) x) as [st2|e] eqn:E; [|rewrite fold_err in H; discriminate].
+      apply (IHl st2); [|exact H].
+      unfold sect_child in E. cbn [bind] in E.
+      destruct (get_segment (st_segs st1) x) as [s|e] eqn:Es; cbn [bind] in E; [|discriminate].
+      destruct (actual_prox (fuel_of (st_segs st1)) (st_segs st1) (sid s)) as [p|e] eqn:Ep; cbn [bind] in E; [|discriminate].
+      cbn [set_prox st_groups] in E.
+      destruct Hst1 as [tail [Hg Ht]].
+      set (name := fresh_name (st_groups st1) (Z.of_nat (List.length (st_groups st1)) - 1) (sid s)) in *.
+      assert (Hfree : ~ In name (map gid (st_groups st1))) by apply fresh_name_not_taken.
+      eapply IH; [| |exact E].
+      * intro Hin. apply Hfree. rewrite Hg, map_app. apply in_or_app. now left.
+      * unfold add_unbranched_group. cbn [set_prox st_groups st_segs].
+        rewrite (existsb_not_in name (st_groups st1) Hfree). cbn [st_groups].
+        exists (tail ++ [mkgroup name [] [] (Some section_nlx)])%list. split.
+        -- rewrite Hg, <- app_assoc. reflexivity.
+        -- apply Forall_app. split; auto. constructor; [reflexivity|constructor].
+  - inversion H; subst. now apply tail_inv_add_member.
+Qed.
+
+Theorem create_branches_old_groups_untouched : forall c gs root st',
+  create_branches c gs root false false = Ok st' ->
+  exists new, st_groups st' = (gs ++ new)%list /\ Forall tagged new.
+Proof.
+  intros c gs root st' H. unfold create_branches in H.
+  destruct (get_segment c root) as [s|e]; cbn [bind] in H; [|discriminate].
+  destruct (root_prox (mkst c gs) s) as [st0|e] eqn:E0; cbn [bind] in H; [|discriminate].
+  assert (Hg0 : st_groups st0 = gs).
+  { unfold root_prox in E0. destruct (sprox s); [inversion E0; reflexivity|].
+    destruct (sparent s); [|inversion E0; reflexivity].
+    destruct (actual_prox _ _ _); cbn [bind] in E0; [|discriminate]. inversion E0. reflexivity. }
+  match type of H with (bind ?X _ = _) => destruct X as [st1|e] eqn:E1 end; cbn [bind] in H; [|discriminate].
+  inversion H; subst st'; clear H. cbn [st_groups].
+  set (name := fresh_name (st_groups st0) (Z.of_nat (List.length gs)) (sid s)) in *.
+  assert (Hfree : ~ In name (map gid (st_groups st0))) by apply fresh_name_not_taken.
+  assert (Hinv : tail_inv gs st1).
+  { eapply sect_tail_inv; [| |exact E1].
+    - now rewrite <- Hg0.
+    - unfold add_unbranched_group. rewrite (existsb_not_in name (st_groups st0) Hfree). cbn [st_groups].
+      exists [mkgroup name [] [] (Some section_nlx)]. split; [now rewrite Hg0|]. constructor; [reflexivity|constructor]. }
+  exact Hinv.
+Qed.
